@@ -118,7 +118,7 @@ pub fn partitions(rng: &mut Rng, body: &[u8], thorough: bool) -> Vec<Vec<Vec<u8>
     // byte at a time
     out.push(body.iter().map(|b| vec![*b]).collect());
     // every single split for short bodies, sampled otherwise
-    let limit = if thorough { 400 } else { 40 };
+    let limit = if thorough { 200 } else { 40 };
     if n <= limit {
         for i in 1..n {
             out.push(vec![body[..i].to_vec(), body[i..].to_vec()]);
@@ -441,7 +441,7 @@ pub fn run(opts: &Opts) -> Report {
     }
     utf8_unit(&mut model, &mut rep, &mut rng, if opts.thorough { 200_000 } else { 20_000 });
     decoder_unit(&mut model, &mut rep, &mut rng, if opts.thorough { 20_000 } else { 2_000 });
-    let n = if opts.thorough { 4_000 } else { 300 } * opts.scale;
+    let n = if opts.thorough { 1_500 } else { 300 } * opts.scale;
     for _ in 0..n {
         let body = gen_body(&mut rng);
         let parts = partitions(&mut rng, &body, opts.thorough);
